@@ -41,6 +41,21 @@ def requeue_kind(ev):
     return None
 
 
+def main_loop_heads(fn):
+    """Head block(s) of the function's outermost (largest) loop: 'while (true)' has a condition block, 'for (;;)' has none - in both
+    cases the head is the block of the loop's strongly connected component that is entered from outside it."""
+    from engine.kinds import sccs
+    heads = {b for b, blk in fn.blocks.items() if blk.cond is not None and T(blk.cond) == "true"}
+    comps = [c for c in sccs(fn) if len(c) > 1]
+    if comps:
+        big = max(comps, key=len)
+        preds = fn.preds()
+        for b in big:
+            if any(p_ not in big for p_, _ in preds.get(b, [])):
+                heads.add(b)
+    return heads
+
+
 def run(rep, tier):
     rep.rule("C01.R1", "K4: thread_data::operator() only on the edge is_valid() && get_previous()==pending of the tagged CAS")
     rep.rule("C01.R2", "K5: current_state_ modified only by compare_exchange outside ctor/rebind; switch_status uses set_state_tagged / restore_state")
@@ -120,7 +135,7 @@ def run(rep, tier):
             bad = []
             dis = True
             for lose in sorted(set(lose_targets)):
-                paths = eval_walk(fn, lose, stop={b for b, blk in fn.blocks.items() if blk.cond is not None and T(blk.cond) == "true"})
+                paths = eval_walk(fn, lose, stop=main_loop_heads(fn))
                 for evs, end in paths:
                     # a path that re-enters the test of the exchange's outcome has not left the gate yet (a && b: the
                     # false edge of a goes to the else branch, not through b)
@@ -140,7 +155,7 @@ def run(rep, tier):
         top = [(b, i) for b, i, ev in fn.all_events() if ev.get("k") == "decl" and ev.get("var") == "state_val"]
         if len(after) != 1 or len(top) != 1:
             raise AnalysisBroken("%s: state_val definitions not found" % fn.full)
-        head = {b for b, blk in fn.blocks.items() if blk.cond is not None and T(blk.cond) == "true"}
+        head = main_loop_heads(fn)
         stored = any(t and re.match(r"^%s\.store_state\(\w+\)$" % re.escape(SS), a) for a, t in (ff.before.get(after[0]) or frozenset()))
         if not stored:
             rep.bad("C01.R4", fn, fn.loc, "requeue-without-store", "the returned state is acted upon although store_state (the publishing compare-exchange) did not succeed")
